@@ -375,7 +375,69 @@ func (c *cluster) tplDivergeSnap(rt *rapid.T) {
 	}
 }
 
+// tplStaleTimeoutNow: a timeout-now request to a voter is withheld on its
+// connection; the transfer times out, the leader demotes that node and the
+// demotion reaches it; only then the old request arrives at what is now a
+// non-voter.
+func (c *cluster) tplStaleTimeoutNow(rt *rapid.T) {
+	c.step(vAct{A: "free"})
+	c.step(vAct{A: "adv", T: 1500})
+	ldr := c.anyLeader()
+	if ldr == 0 || c.blackbox {
+		return
+	}
+	r := raftOf(c.up(ldr))
+	if r == nil {
+		return
+	}
+	cfg := r.configs.Latest.clone()
+	var voters []uint64
+	for _, id := range c.followersOf(ldr) {
+		if nd, ok := cfg.Nodes[id]; ok && nd.Voter {
+			voters = append(voters, id)
+		}
+	}
+	if len(voters) < 2 {
+		return
+	}
+	c.stats.class("tpl-staletimeoutnow")
+	t := voters[rapid.IntRange(0, len(voters)-1).Draw(rt, "target")]
+	c.step(vAct{A: "gate"})
+	before := c.stats.count("wire-timeoutNow")
+	c.lastTN = tnConn{}
+	c.step(vAct{A: "xfer", N: ldr, M: t, T: 1000})
+	for i := 0; i < 8 && c.stats.count("wire-timeoutNow") == before && !c.failed(); i++ {
+		c.step(vAct{A: "dlvpair", N: ldr, M: t, K: 1})
+	}
+	if c.stats.count("wire-timeoutNow") == before || !c.lastTN.set || c.lastTN.to != t {
+		c.step(vAct{A: "free"})
+		return
+	}
+	tn := c.lastTN
+	c.stats.class("tpl-staletimeoutnow-withheld")
+	for i := 0; i < 5 && !c.failed(); i++ {
+		c.step(vAct{A: "adv", T: 300})
+		c.step(vAct{A: "dlvexcept", N: tn.from, M: tn.to, C: tn.seq, K: 3})
+	}
+	if c.anyLeader() != ldr {
+		c.step(vAct{A: "free"})
+		return
+	}
+	what := []string{"demote", "demote", "remove"}[rapid.IntRange(0, 2).Draw(rt, "what")]
+	c.step(vAct{A: "cfg", N: ldr, M: t, S: what})
+	for i := 0; i < 8 && !c.failed(); i++ {
+		c.step(vAct{A: "adv", T: 300})
+		c.step(vAct{A: "dlvexcept", N: tn.from, M: tn.to, C: tn.seq, K: 3})
+	}
+	// now the stale request
+	c.step(vAct{A: "dlv", N: tn.from, M: tn.to, C: tn.seq, D: 0, K: 50})
+	c.step(vAct{A: "adv", T: 50})
+	c.step(vAct{A: "free"})
+	c.step(vAct{A: "adv", T: 3000})
+}
+
 var templates = map[string]func(c *cluster, rt *rapid.T){
+	"staletimeoutnow": (*cluster).tplStaleTimeoutNow,
 	"divergesnap":  (*cluster).tplDivergeSnap,
 	"lagsnap":      (*cluster).tplLagSnap,
 	"staleinstall": (*cluster).tplStaleInstall,
